@@ -147,7 +147,8 @@ def to_coq(world, obs):
 
 
 # ---------------------------------------------------------------- generator
-LNAMES = ['La', 'Lb', 'Lc', 'Ma', 'Kz', 'Zq', 'Ab', 'Lx']
+# some names are substrings of others (a layer selected by regex search instead of equality would drag the longer one along)
+LNAMES = ['La', 'Lb', 'Lc', 'Ma', 'Kz', 'Zq', 'Ab', 'Lx', 'Laz', 'Abx']
 
 
 def gen_layers(rng, n, p_hook=0.8, faults=True):
@@ -155,7 +156,7 @@ def gen_layers(rng, n, p_hook=0.8, faults=True):
     layers = []
     for i in range(n):
         cand = list(range(i))
-        k = min(len(cand), rng.choice([0, 0, 1, 1, 1, 2]))
+        k = min(len(cand), rng.choice([0, 0, 1, 1, 1, 2, 2, 3]))
         bases = rng.sample(cand, k)
         hooks = {}
         if rng.random() < p_hook:
@@ -214,6 +215,9 @@ def gen_world(rng, max_layers=4, max_tests=7, opts='any', faults=True, rich=True
             options.append('-j%d' % rng.choice([2, 3]))
         if rng.random() < 0.4:
             options.append(rng.choice(['-v', '-vv']))
+        # options that must not change what runs or what is reported (only how it is displayed / where else it is written)
+        if rng.random() < 0.25:
+            options.append(rng.choice(['-c', '-p', '--buffer', '-vvv']) if rng.random() < 0.8 else '--xml=xmlout')
     elif isinstance(opts, list):
         options = list(opts)
     return {'layers': layers, 'tests': tests, 'options': options}
